@@ -274,6 +274,24 @@ func checkTree(t Tree, only string, count func(string)) (fs []finding) {
 		}
 	}
 
+	// (i') DeepCopy of every node of the tree on its own (also husband nodes without their family around them)
+	if want("copynode") {
+		nodes, _ := index(T)
+		for i, n := range nodes {
+			var C gedcom.Node
+			if p, msg, frame := vlib.Try(func() { C = gedcom.DeepCopy(n, gedcom.NewDocument()) }); p {
+				add("copy-panics:DeepCopy-of-inner-node:"+frame+":"+vlib.MsgClass(msg), fmt.Sprintf("DeepCopy of node %d (%s) of\n%s panicked: %s", i, n.GEDCOMLine(0), t.text(), msg), "copynode", fmt.Sprint(i))
+				continue
+			}
+			count("copynode")
+			ab, _ := deq(n, C)
+			ba, _ := deq(C, n)
+			if !ab || !ba || n.GEDCOMString(0) != C.GEDCOMString(0) {
+				add("inner-node-copy-not-deep-equal", fmt.Sprintf("DeepCopy of node %d (%s) of\n%sis not DeepEqual / serialises differently", i, n.GEDCOMLine(0), t.text()), "copynode", fmt.Sprint(i))
+			}
+		}
+	}
+
 	// (ii) re-orderings
 	if want("perm") {
 		ords := orderings(t.structure())
@@ -597,7 +615,7 @@ func main() {
 		Run:    run,
 		Replay: replay,
 		Required: func(string) []string {
-			req := []string{"copy:DeepCopy", "copy:Filter-identity", "copy:decode-encode", "perm", "edit:insert", "edit:delete", "edit:change", "indep:AddNode", "indep:DeleteNode", "indep:SetNodes-nil", "pairs", "pairs:equal"}
+			req := []string{"copynode", "copy:DeepCopy", "copy:Filter-identity", "copy:decode-encode", "perm", "edit:insert", "edit:delete", "edit:change", "indep:AddNode", "indep:DeleteNode", "indep:SetNodes-nil", "pairs", "pairs:equal"}
 			for _, l := range alphabet {
 				req = append(req, "label:"+l.Tag+" "+l.Value)
 			}
